@@ -359,6 +359,8 @@ class PFlow(BaseRoutine):
             Convergence status
         """
 
+        from scipy.optimize import NoConvergence  # raised when the iteration limit is reached
+
         system = self.system
         v0 = system.dae.xy
 
@@ -367,7 +369,7 @@ class PFlow(BaseRoutine):
             self._set_xy(ret)
             self.converged = True
 
-        except ValueError as e:
+        except (ValueError, NoConvergence) as e:
             logger.error('Mismatch is not correctable. Equations may be unsolvable.')
             logger.error(e)
             self.converged = False
